@@ -105,7 +105,7 @@ def cases(draw, tier, generated):
         config = draw(gen_iso.configs())
     else:
         config = PACKAGED
-    msg = draw(gen_iso.messages(config, codec, exact=True, pds_mode='keys', pds_big=draw(st.integers(0, 3)) == 0))
+    msg = draw(gen_iso.messages(config, codec, exact=True, pds_mode='keys', pds_big=draw(st.sampled_from([True, False, False, False]))))
     return config, codec, hexbm, msg, generated
 
 
